@@ -410,3 +410,102 @@ func init() {
 		},
 	})
 }
+
+// LongSrv: a method that runs for a given (virtual) duration and reports what became of its context.
+type LongSrv struct {
+	mu  sync.Mutex
+	end map[int]string
+}
+
+func (h *LongSrv) Long(ctx context.Context, tok int, ms int) (int, error) {
+	select {
+	case <-time.After(time.Duration(ms) * time.Millisecond):
+	case <-ctx.Done():
+	}
+	h.mu.Lock()
+	h.end[tok] = fmt.Sprint(ctx.Err())
+	h.mu.Unlock()
+	return tok, nil
+}
+
+type LongCli struct {
+	Long func(ctx context.Context, tok int, ms int) (int, error)
+}
+
+// S-LONGCALL (C06, last clause): calls of any duration on a healthy connection, made through a
+// client with the library's DEFAULT settings (default HTTP client / default WebSocket options),
+// whose caller never cancels: the handler's context stays live until the handler returns and
+// the caller gets the result. Durations are virtual time, so an hour costs nothing.
+func init() {
+	Register(&Scenario{
+		Name:     "longcall",
+		Property: "C06",
+		Cfg:      vsched.Config{Horizon: 3 * time.Hour},
+		Params: func(tier string) []Param {
+			var ps []Param
+			durs := []int{1000, 12000, 95000}
+			if tier == "thorough" {
+				durs = []int{1000, 5000, 12000, 31000, 61000, 95000, 3600000}
+			}
+			for _, tr := range []string{"http", "ws"} {
+				for _, d := range durs {
+					ps = append(ps, Param{Name: fmt.Sprintf("%s-default-%dms", tr, d), Bound: 0, V: map[string]int{"ms": d}, S: map[string]string{"tr": tr}})
+				}
+			}
+			return ps
+		},
+		Body: func(s *vsched.Sched, p Param) {
+			w := NewWorld(s) // default server options too
+			srv := &LongSrv{end: map[int]string{}}
+			w.RPC.Register("T", srv)
+			w.Serve()
+			var cli LongCli
+			var err error
+			if p.Str("tr") == "http" {
+				_, err = w.DefaultHTTPClient("T", &cli)
+			} else {
+				_, err = w.WS("T", &cli)
+			}
+			if err != nil {
+				s.Violate("HARNESS: setup: %v", err)
+				return
+			}
+			obs := NewObs()
+			s.Teardown = w.Teardown
+			s.OnQuiesce = func() bool {
+				if _, ok := obs.Get("ret-2"); ok {
+					s.Stop()
+					return true
+				}
+				return false
+			}
+			s.Finish = func() {
+				for _, tok := range []int{1, 2} {
+					v, ok := obs.Get(fmt.Sprintf("ret-%d", tok))
+					if !ok {
+						s.Violate("C06: call %d (%d ms, %s, default options) never returned; alive: %s", tok, p.I("ms"), p.Str("tr"), strings.Join(s.Alive(), " "))
+						continue
+					}
+					srv.mu.Lock()
+					end := srv.end[tok]
+					srv.mu.Unlock()
+					if end != "<nil>" {
+						s.Violate("C06: the handler context of call %d was cancelled (%s) after running %d ms on a healthy %s connection although the caller never cancelled; the caller got %s", tok, end, p.I("ms"), p.Str("tr"), v)
+					}
+					if v != fmt.Sprintf("%d/<nil>", tok) {
+						s.Violate("C02: call %d (%d ms, %s, default options) returned %s instead of its result", tok, p.I("ms"), p.Str("tr"), v)
+					}
+				}
+				s.SetObs(obs.String())
+			}
+			s.Begin()
+			s.Go("caller", func() {
+				v, err := cli.Long(context.Background(), 1, p.I("ms"))
+				obs.Set("ret-1", "%d/%s", v, errClass(err))
+				// a second long call on the (reused) connection
+				v, err = cli.Long(context.Background(), 2, p.I("ms"))
+				obs.Set("ret-2", "%d/%s", v, errClass(err))
+			})
+		},
+	})
+}
